@@ -147,6 +147,9 @@ func (g *genCtx) stdCallbacks() {
 	if g.r.p(0.4) {
 		g.cbs = append(g.cbs, COpt{Kind: "fn", Name: "re", Fn: "reenter"})
 	}
+	if g.r.p(0.2) {
+		g.cbs = append(g.cbs, COpt{Kind: "fn", Name: "rc", Fn: fmt.Sprintf("recurse:%d", pick(g.r, []int{1, 1, 2, 3, 17, 20}))})
+	}
 }
 
 // genProgram generates one evaluate program with its compile options.
